@@ -12,3 +12,5 @@ require (
 )
 
 replace github.com/acquirecloud/golibs => ../repo
+
+replace github.com/oklog/ulid/v2 => ../deps/ulid
